@@ -266,73 +266,81 @@ def run(ctx):
         bucket = rng.choice([2, 3, 4, 5, 7, 10, 16])
         drop = rng.choice([0, 0, 0, 4, 6, 10, 20])
         _NEAR[0] = (s % 3 == 1)          # every third sequence stores nearly equal float rows
-        arr = new_array(bucket, drop)
-        evs, v = [], 1
-        model_len = 0
-        held, countdown = None, 0
-        for step in range(length):
+        # every fourth sequence drives TWO arrays of the same shape in an interleaved way (each is its own trace with
+        # its own value range): state shared between instances shows up as rows of the other array
+        nlanes = 2 if s % 4 == 2 else 1
+        lanes = [{"arr": new_array(bucket, drop), "evs": [], "v": 1 + 100000 * j, "held": None, "countdown": 0,
+                  "dead": False} for j in range(nlanes)]
+        for step in range(length * nlanes):
+            L = rng.choice(lanes)
+            if L["dead"]:
+                continue
+            arr, evs = L["arr"], L["evs"]
             n = len(arr)
             c = rng.random()
-            if held is not None:
+            if L["held"] is not None:
                 # a row object read earlier is still held by the caller: only appends and deletions in between,
                 # then the held object itself is appended (a list would append the row as it was when read)
-                countdown -= 1
-                if countdown <= 0:
+                L["countdown"] -= 1
+                if L["countdown"] <= 0:
                     ev = {"k": "append_held"}
                     try:
-                        arr.append(held)
+                        arr.append(L["held"])
                         ev["exc"] = "none"; ev["vis"] = visible(arr)
                     except Exception as ex:
                         ev["exc"] = type(ex).__name__; ev["vis"] = []
-                    evs.append(ev); held = None
+                    evs.append(ev); L["held"] = None
                     if ev["exc"] != "none":
-                        break
+                        L["dead"] = True
                     continue
                 c = c * 0.75 if n else 0.0
-                if c >= 0.6 and n == 0:
-                    c = 0.0
-            elif n > 0 and drop == 0 and rng.random() < 0.06:
+            elif n > 0 and rng.random() < 0.08:
                 i = rng.randrange(-n, n)
-                held = arr[i]
-                evs.append({"k": "hold", "i": i, "ok": True, "r": dec(held[0])})
-                countdown = rng.randint(1, 6)
+                L["held"] = arr[i]
+                evs.append({"k": "hold", "i": i, "ok": True, "r": dec(L["held"][0])})
+                L["countdown"] = rng.randint(0, 6)      # 0: the held row is appended at once (arr.append(arr[i]))
                 continue
+            v = L["v"]
             if c < 0.45 or n == 0:
-                op = {"k": "append", "v": v}; v += 1
+                op = {"k": "append", "v": v}; L["v"] += 1
             elif c < 0.6:
                 m = rng.randint(1, 2 * bucket + 1)
-                op = {"k": "append_multiple", "v": v, "n": m}; v += m
+                op = {"k": "append_multiple", "v": v, "n": m}; L["v"] += m
             elif c < 0.75:
                 op = {"k": "delete", "i": rng.randrange(n)}
-            elif c < 0.78:
+            elif c < (0.80 if nlanes == 2 else 0.78):
                 op = {"k": "flush"}
             elif c < 0.88:
-                op = {"k": "setitem", "i": rng.randrange(-n, n), "v": v}; v += 1
+                op = {"k": "setitem", "i": rng.randrange(-n, n), "v": v}; L["v"] += 1
             else:
                 a = rng.choice([NONE] + list(range(-(n + 1), n + 2)))
                 b = rng.choice([NONE] + list(range(-(n + 1), n + 2)))
                 m = py_slice_len(n, a, b)
                 if m == 0:
                     continue
-                op = {"k": "setslice", "a": a, "b": b, "v": v, "n": m}; v += m
+                op = {"k": "setslice", "a": a, "b": b, "v": v, "n": m}; L["v"] += m
             ev = apply_op(arr, op)
             evs.append(ev)
             if ev["exc"] != "none":
-                break
+                L["dead"] = True
+                continue
             if rng.random() < 0.08:
                 evs.append(read_table(arr, rng, full=False, nslices=25))
-            if len(traces) >= 20000:
-                pass
             if len(arr) > 60 and not drop:
-                arr_flush = {"k": "flush"}
-                evs.append(apply_op(arr, arr_flush))
-        evs.append(read_table(arr, rng, full=False, nslices=60))
-        tid += 1
-        traces.append({"id": tid, "hdr": {"bucket": bucket, "drop": drop, "src": "T", "near": _NEAR[0]}, "ev": evs})
+                evs.append(apply_op(arr, {"k": "flush"}))
+        for j, L in enumerate(lanes):
+            if L["held"] is None and not L["dead"]:
+                L["evs"].append(read_table(L["arr"], rng, full=False, nslices=60))
+            tid += 1
+            traces.append({"id": tid, "hdr": {"bucket": bucket, "drop": drop, "src": "T", "near": _NEAR[0], "lane": j,
+                                              "lanes": nlanes}, "ev": L["evs"]})
+            ctx.nontrivial.add(("T", bucket, drop, s, j))
         _NEAR[0] = False
-        ctx.nontrivial.add(("T", bucket, drop, s))
         if s == 0:
-            samples.append({"kind": "T: random sequence (first 12 events)", "bucket": bucket, "drop": drop, "ops": evs[:12]})
+            samples.append({"kind": "T: random sequence (first 12 events)", "bucket": bucket, "drop": drop,
+                            "ops": lanes[0]["evs"][:12]})
+        if len(traces) >= 20000:
+            flush()
     # ---------------- TLC decides
     flush()
     ctx.evaluations = stats["validated"]
